@@ -89,6 +89,19 @@ func (it *Interp) valueHook(fn *ssa.Function, st *State, v ssa.Value, ops ...Abs
 	return nil, false
 }
 
+// FieldAlias gives some struct fields a canonical name (their role) under
+// which paths, track specifications and reports refer to them, whatever the
+// source calls them. Set once, before any interpreter is created.
+var FieldAlias = map[*types.Var]string{}
+
+// FieldName is the canonical name of a struct field.
+func FieldName(f *types.Var) string {
+	if a, ok := FieldAlias[f]; ok {
+		return a
+	}
+	return f.Name()
+}
+
 // BaseHooks is a no-op Hooks for embedding.
 type BaseHooks struct{}
 
@@ -774,7 +787,7 @@ func (it *Interp) execBlock(fn *ssa.Function, sum *Summary, w work, panicCtx boo
 			x := it.eval(st, ins.X)
 			if p, ok := x.(Ptr); ok {
 				fld := ins.X.Type().Underlying().(*types.Pointer).Elem().Underlying().(*types.Struct).Field(ins.Field)
-				setReg(st, ins, p.Sub(fld.Name()))
+				setReg(st, ins, p.Sub(FieldName(fld)))
 			} else {
 				setReg(st, ins, Top{})
 			}
@@ -782,7 +795,7 @@ func (it *Interp) execBlock(fn *ssa.Function, sum *Summary, w work, panicCtx boo
 			x := it.eval(st, ins.X)
 			if sv, ok := x.(StructV); ok {
 				fld := ins.X.Type().Underlying().(*types.Struct).Field(ins.Field)
-				setReg(st, ins, structField(sv, fld.Name()))
+				setReg(st, ins, structField(sv, FieldName(fld)))
 			} else {
 				setReg(st, ins, Top{})
 			}
@@ -1367,7 +1380,7 @@ func (it *Interp) resolve(t types.Type, path string) *pathInfo {
 		}
 		found := false
 		for j := 0; j < s.NumFields(); j++ {
-			if s.Field(j).Name() == p {
+			if FieldName(s.Field(j)) == p {
 				cur = s.Field(j).Type()
 				found = true
 				break
@@ -1424,15 +1437,15 @@ func (it *Interp) walkLeaves(t types.Type, prefix string, depth int, f func(path
 	decl := namedString(t)
 	for i := 0; i < s.NumFields(); i++ {
 		fl := s.Field(i)
-		p := fl.Name()
+		p := FieldName(fl)
 		if prefix != "" {
-			p = prefix + "." + fl.Name()
+			p = prefix + "." + FieldName(fl)
 		}
 		if _, isStruct := fl.Type().Underlying().(*types.Struct); isStruct {
 			it.walkLeaves(fl.Type(), p, depth+1, f)
 			continue
 		}
-		f(p, fl.Type(), decl, fl.Name())
+		f(p, fl.Type(), decl, FieldName(fl))
 	}
 }
 
@@ -1457,9 +1470,9 @@ func (it *Interp) walkGhosts(t types.Type, prefix string, depth int, f func(path
 	for i := 0; i < s.NumFields(); i++ {
 		fl := s.Field(i)
 		if _, isStruct := fl.Type().Underlying().(*types.Struct); isStruct {
-			p := fl.Name()
+			p := FieldName(fl)
 			if prefix != "" {
-				p = prefix + "." + fl.Name()
+				p = prefix + "." + FieldName(fl)
 			}
 			it.walkGhosts(fl.Type(), p, depth+1, f)
 		}
